@@ -93,7 +93,7 @@ def _find_fn(tree, qual):
             if isinstance(n, (ast.FunctionDef, ast.AsyncFunctionDef, ast.ClassDef)) and n.name == p:
                 node = n
         if node is None:
-            raise TranslatorError(f"{qual} not found in sandbox.py")
+            raise TranslatorError(f"{qual} not found")
         body = node.body
     return node
 
@@ -203,6 +203,22 @@ def compiler_shape_mismatches(src_dir, names=COMPILER_FUNCS):
     return [q for q in names if got.get(q) != EXPECTED_COMPILER.get(q)]
 
 
+NODES_FUNCS = ("Getattr.as_const", "Getitem.as_const")
+
+
+def nodes_shapes(src_dir):
+    """canonical text of the constant-folding entry points of nodes.py (modelled by Model/SbxFold.as_const)"""
+    path = os.path.join(src_dir, "jinja2", "nodes.py")
+    tree = ast.parse(open(path, encoding="utf-8").read(), path)
+    return {q: _strip(_find_fn(tree, q)) for q in NODES_FUNCS}
+
+
+def nodes_shape_mismatches(src_dir):
+    from .sbx_shapes import EXPECTED_NODES
+    got = nodes_shapes(src_dir)
+    return [q for q in NODES_FUNCS if got.get(q) != EXPECTED_NODES.get(q)]
+
+
 def shape_mismatches(facts):
     """names of modelled functions whose canonical text differs from the one the models follow"""
     from .sbx_shapes import EXPECTED
@@ -217,3 +233,4 @@ def dump_shapes(src_dir):
     with open(here, "w") as f:
         f.write(head + "EXPECTED = " + pprint.pformat(facts["shapes"], width=120) + "\n")
         f.write("EXPECTED_COMPILER = " + pprint.pformat(compiler_shapes(src_dir), width=120) + "\n")
+        f.write("EXPECTED_NODES = " + pprint.pformat(nodes_shapes(src_dir), width=120) + "\n")
